@@ -39,6 +39,7 @@ type simSpec struct {
 	After      func(env *core.Env, i int, w *sim.World, res *core.Result)
 	// AdoptSafety re-labels violations of other properties as violations of this one ("<prop>:<sig>").
 	AdoptSafety bool
+	RacePkgs    []string
 }
 
 var modes = []string{"seq", "rand", "lag", "rand", "lag"}
@@ -143,8 +144,9 @@ func registerSim(spec *simSpec) {
 			}
 			return spec.Quick
 		},
-		Run:    func(env *core.Env, res *core.Result) { runSim(spec, env, res) },
-		Phases: spec.Phases,
+		Run:      func(env *core.Env, res *core.Result) { runSim(spec, env, res) },
+		Phases:   spec.Phases,
+		RacePkgs: spec.RacePkgs,
 	})
 }
 
@@ -170,6 +172,11 @@ func init() {
 				MaxConcurrency: 3, Parallel: 15, MaxAttempts: 2, MaxRetryDelay: 3, KillPct: 20, DeletePct: 25, StartAfterPct: 15, Spread: 25, Burst: true, TTL: []int64{5, 30, 120}}}
 		},
 		NonTrivial: func(w *sim.World) bool { return w.Mon.Evals["C05_contended"] > 0 },
+		RacePkgs:   []string{"pkg/execution/controllers/jobqueuecontroller", "pkg/execution/stores/activejobstore", "pkg/utils/atomic", "pkg/execution/util/job"},
+		Phases: []core.Phase{
+			{Name: "stress", Race: true, Run: stressPhase(map[string]bool{"C05": true}, 0, ""), Count: tierN(1, 3)},
+			{Name: "lin", Race: true, Run: linPhase, Count: tierN(1, 2)},
+		},
 	})
 	registerSim(&simSpec{
 		ID: "C06", Level: "exploration", Quick: 480, Thorough: 40000,
@@ -244,6 +251,8 @@ func init() {
 				MaxAttempts: 3, MaxRetryDelay: 10, KillPct: 30, FutureKill: 40, DeletePct: 25, StartAfterPct: 20, PendingTimeout: []int64{-1, 0, 8, 25}, TTL: []int64{20, 100}}}
 		},
 		NonTrivial: func(w *sim.World) bool { return w.Mon.MaxVersions >= 5 },
+		RacePkgs:   []string{"pkg/execution/controllers/jobcontroller", "pkg/execution/util/job", "pkg/execution/taskexecutor"},
+		Phases:     []core.Phase{{Name: "stress", Race: true, Run: stressPhase(map[string]bool{"C11": true}, 0, ""), Count: tierN(1, 2)}},
 	})
 	registerSim(&simSpec{
 		ID: "C12", Level: "exploration", Quick: 400, Thorough: 30000,
